@@ -140,7 +140,8 @@ exists Type Prop Set as at return fix cofix struct where Definition Fixpoint Sec
 for_each for_from for_enum for_range Continue Return ctl append extend sub set_nth
 pstr pnode exc res Ok Exc LookupError OutOfFuel bindx lookup if_truthy len py_index seq_index str_index
 py_bound slice_from slice_to slice chars str_eqb str_upper str_join negb andb orb
-KernelRt ExpandRt Expand""".split()) | {s["coq"] for s in SPECS} | {s["coq"] for s in OPAQUE.values()}
+KernelRt ExpandRt Expand pair left right inl inr I Eq Lt Gt xH xI xO Z0 Zpos Zneg N0 Npos
+CatM CatC CatPlain SegPlain SegAlpha mod""".split()) | {s["coq"] for s in SPECS} | {s["coq"] for s in OPAQUE.values()}
 
 
 class Env:
@@ -813,8 +814,8 @@ class FunctionTranslator:
             self.fail(s, "loop over a value of type %s" % tl)
         if isinstance(s.iter, ast.Name) and s.iter.id in self.assigned(s.body):
             self.fail(s, "the iterated list is assigned or mutated in the loop")
-        if x in env.types and env.types[x] != STR:
-            self.fail(s, "the loop variable %r is already bound with another type" % x)
+        if x in env.types:
+            self.fail(s, "the loop variable %r is already bound" % x)
         inner = env.copy()
         inner.types[x] = STR
         inner.fresh.discard(x)
